@@ -266,6 +266,10 @@ impl Store {
                 }
             };
             if !stored.nodes.is_empty() {
+                // the latest description of a node wins: a later run of its task (after a back),
+                // or its own row after the copy kept in the row of an outer builder
+                let old = node.clear_nodes();
+                dynamic.retain(|n| !old.iter().any(|o| Arc::ptr_eq(o, n)));
                 let mut found = Vec::new();
                 node.restore_nodes(&stored.nodes, &mut found);
                 dynamic.extend(found);
